@@ -35,7 +35,7 @@ func init() {
 // schedVerdict turns scheduler-level outcomes into violations.
 func schedVerdict(out detsched.Outcome, res *sim.Result, fairBound int64, detail func() map[string]any) bool {
 	res.Steps = int(out.Steps)
-	res.Count("sched:policy:"+out.PolicyName, 1)
+	res.Count("fault:schedule-policy:"+out.PolicyName, 1)
 	res.Count("sched:steps", int(out.Steps))
 	res.Count("sched:switches", out.Switches)
 	res.Count("sched:adopted-workers", out.Adopted)
